@@ -270,8 +270,14 @@ func (p *Parser) ParseProgram() (*ast.Program, error) {
 			Token:      textStmt.Token,
 		})
 	}
+	// The auto-generated text labels depend on the selected poryswitch cases, which are
+	// not known in lint mode, so lint mode only checks the explicit text statements.
+	checkedTexts := program.Texts
+	if !p.enableEnvironmentErrors {
+		checkedTexts = program.Texts[len(p.inlineTexts):]
+	}
 	names := make(map[string]struct{}, 0)
-	for _, text := range program.Texts {
+	for _, text := range checkedTexts {
 		if _, ok := names[text.Name]; ok {
 			return nil, NewParseError(text.Token, fmt.Sprintf("duplicate text label '%s'. Choose a unique label that won't clash with the auto-generated text labels", text.Name))
 		}
@@ -280,11 +286,16 @@ func (p *Parser) ParseProgram() (*ast.Program, error) {
 
 	// Build list of Movements from both inline and explicit movements.
 	// Generate error if there are any name clashes.
+	checkedStatements := program.TopLevelStatements
 	for _, m := range p.inlineMovements {
 		program.TopLevelStatements = append(program.TopLevelStatements, m)
 	}
+	if p.enableEnvironmentErrors {
+		// As with texts, lint mode only checks the explicit movement statements.
+		checkedStatements = program.TopLevelStatements
+	}
 	movementNames := make(map[string]*ast.MovementStatement, 0)
-	for _, stmt := range program.TopLevelStatements {
+	for _, stmt := range checkedStatements {
 		// TODO: checking for token.MOVEMENT is a hack--it's just used to differentiate explicit vs. implicit movement statements
 		// that exists as the program's top level statements.
 		if movementStmt, ok := stmt.(*ast.MovementStatement); ok {
